@@ -1,6 +1,6 @@
 From Coq Require Import List Arith Lia Bool String Ascii DecimalString DecimalNat Decimal FinFun.
 Import ListNotations.
-Open Scope string_scope.
+Local Open Scope string_scope.
 
 (* wire.go naming helpers: disambiguate (the loop `for n := 2; ; n++` as a fuelled loop, with the proof that
    fuel |bad|+1 suffices and the result is fresh), unexport, export, typeVariableName (ASCII identifiers). *)
